@@ -133,6 +133,7 @@ class SimSocket(object):
         self.last_activity = None  # net.now of the last byte accepted by send or returned by recv
         self.close_time = None
         self.created = net.now
+        self.created_seq = self.sid
         self.tx_chunks = []       # sizes accepted by each successful send (oracle side)
         self.rx_chunks = []       # data returned by each successful recv (oracle side)
         net.socks.append(self)
@@ -173,7 +174,7 @@ class SimSocket(object):
             host = "0.0.0.0"
         if port == 0:
             port = self.net.ephemeral(self)
-        key = (self.kind, port)
+        key = (self.kind, port) if self.kind == "udp" else (self.kind, host, port)
         holder = self.net.bound.get(key)
         if holder is not None and holder is not self and not holder.closed and self.kind == "tcp" and holder.state == "listening":
             raise _err(errno.EADDRINUSE)
@@ -201,7 +202,7 @@ class SimSocket(object):
         if not self.bound:
             raise _err(errno.EINVAL)
         self.state = "listening"
-        self.net.listeners[self.laddr[1]] = self
+        self.net.listeners[(self.laddr[0], self.laddr[1])] = self
 
     def accept(self):
         self._check_open()
@@ -257,16 +258,17 @@ class SimSocket(object):
                 return errno.EINPROGRESS
             if f[0] == "raise":
                 raise _err(f[1])
-        lst = net.listeners.get(port)
+        ip = "127.0.0.1" if host in ("0.0.0.0", "") else host
+        lst = net.listeners.get((ip, port)) or net.listeners.get(("0.0.0.0", port))
         if lst is None or lst.closed or lst.state != "listening" or not net.reachable(host, port):
             self.state = "refused"
             net.log("connect-refused", self.sid, port)
             return errno.EINPROGRESS
         # create the server-side socket; the three-way handshake completes after `latency` net steps
         srv = SimSocket(net, lst.role, "tcp")
-        srv.laddr = (lst.laddr[0] if lst.laddr[0] != "0.0.0.0" else "127.0.0.1", port)
+        srv.laddr = (lst.laddr[0] if lst.laddr[0] != "0.0.0.0" else ip, port)
         srv.raddr = self.laddr
-        self.raddr = (("127.0.0.1" if host in ("0.0.0.0", "") else host), port)
+        self.raddr = (ip, port)
         a, b = Pipe(net.cap), Pipe(net.cap)
         self.txpipe, srv.rxpipe = a, a
         srv.txpipe, self.rxpipe = b, b
@@ -405,8 +407,8 @@ class SimSocket(object):
                 del net.bound[("udp", self.laddr[1])]
             return
         if self.state == "listening":
-            if net.listeners.get(self.laddr[1]) is self:
-                del net.listeners[self.laddr[1]]
+            if net.listeners.get((self.laddr[0], self.laddr[1])) is self:
+                del net.listeners[(self.laddr[0], self.laddr[1])]
             for s in self.backlog:     # connections never accepted are reset
                 s.close()
             return
